@@ -16,28 +16,50 @@ pub struct Corpus {
     pub families: Vec<(String, usize)>,
 }
 
-struct Acc {
+pub const CHUNK: usize = 100_000;
+
+struct Acc<'s> {
     seen: HashSet<u64>,
     progs: Vec<Prog>,
     generated: usize,
+    distinct: usize,
     families: Vec<(String, usize)>,
+    sink: Option<&'s mut dyn FnMut(Vec<Prog>)>,
 }
 
-impl Acc {
-    fn new() -> Acc {
-        Acc { seen: HashSet::new(), progs: Vec::new(), generated: 0, families: Vec::new() }
+impl<'s> Acc<'s> {
+    fn new() -> Acc<'s> {
+        Acc { seen: HashSet::new(), progs: Vec::new(), generated: 0, distinct: 0, families: Vec::new(), sink: None }
     }
     fn add(&mut self, fam: &str, tag: String, f: Frag) {
         self.generated += 1;
         let p = Prog::from(f, format!("{}:{}", fam, tag));
         if self.seen.insert(p.key()) {
             self.progs.push(p);
+            self.distinct += 1;
             match self.families.last_mut() {
                 Some((n, c)) if n == fam => *c += 1,
                 _ => self.families.push((fam.to_string(), 1)),
             }
+            if self.progs.len() >= CHUNK {
+                self.flush();
+            }
         }
     }
+    fn flush(&mut self) {
+        if let Some(sink) = self.sink.as_mut() {
+            if !self.progs.is_empty() {
+                sink(std::mem::take(&mut self.progs));
+            }
+        }
+    }
+}
+
+/// summary of a streamed corpus
+pub struct Summary {
+    pub generated: usize,
+    pub distinct: usize,
+    pub families: Vec<(String, usize)>,
 }
 
 fn in_contract(part: Frag) -> Frag {
@@ -229,11 +251,26 @@ pub fn leaf_kinds() -> Vec<Frag> {
 }
 
 pub fn build(tier: Tier) -> Corpus {
+    let mut all: Vec<Prog> = Vec::new();
+    let sum = stream(tier, &mut |chunk| all.extend(chunk));
+    Corpus { progs: all, generated: sum.generated, families: sum.families }
+}
+
+/// Generate the corpus in chunks of at most CHUNK programs (bounded memory); every chunk is handed
+/// to `sink` and dropped by the caller when done.
+pub fn stream(tier: Tier, sink: &mut dyn FnMut(Vec<Prog>)) -> Summary {
+    let mut acc = Acc::new();
+    acc.sink = Some(sink);
+    fill(tier, &mut acc);
+    acc.flush();
+    Summary { generated: acc.generated, distinct: acc.distinct, families: acc.families.clone() }
+}
+
+fn fill(tier: Tier, acc: &mut Acc) {
     let ealts = expr_alts();
     let salts = stmt_alts();
     let simples = simple_alts();
     let ctxs = expr_contexts();
-    let mut acc = Acc::new();
     let all = |_: &EAlt| true;
 
     // ---- Σ_A(1): every expression alternative in every non-expression-owned expression hole
@@ -359,10 +396,13 @@ pub fn build(tier: Tier) -> Corpus {
         for (n, f) in stmt_expr_holes(&salts, &simples, &e2s) {
             acc.add("A2s", n, in_func(f));
         }
-        // ---- Σ_B(3)
-        let e3 = expr_chains(&ealts, 3, &all);
-        for (n, f) in &e3 {
-            acc.add("B3", n.clone(), in_func(expr_stmt(f.clone())));
+        // ---- Σ_B(3): generated lazily from Σ_B(2) to bound memory
+        for a in ealts.iter().filter(|a| !a.atom) {
+            for h in 0..a.holes.len() {
+                for (n, f) in &e2 {
+                    acc.add("B3", format!("{}[{}]<-{}", a.name, h, n), in_func(expr_stmt(build_e(a, Some((h, f))))));
+                }
+            }
         }
         // ---- Σ_C(3) in a plain function, Σ_C(2) in every function kind
         for (n, f) in stmt_chains(&salts, &simples, 3, &marker) {
@@ -375,7 +415,6 @@ pub fn build(tier: Tier) -> Corpus {
         }
     }
 
-    Corpus { progs: acc.progs, generated: acc.generated, families: acc.families }
 }
 
 /// A small corpus for layout exploration etc.: Σ_A(1) in the statement context, Σ_D singles,
